@@ -281,6 +281,17 @@ func parseRuleStrict(rule *yaml.Node, contentLines []string) Rule {
 		}
 	}
 
-	pr, _ := parseRule(rule, 0, 0, contentLines)
+	pr, isEmpty := parseRule(rule, 0, 0, contentLines)
+	if isEmpty {
+		// No record, alert or expr key, parseRule() returns a rule that is neither
+		// alerting nor recording and has no error set, which no check can handle.
+		return Rule{
+			Lines: diags.LineRange{First: rule.Line, Last: rule.Line},
+			Error: ParseError{
+				Line: rule.Line,
+				Err:  fmt.Errorf("incomplete rule, no %s or %s key", alertKey, recordKey),
+			},
+		}
+	}
 	return pr
 }
